@@ -46,3 +46,13 @@ macro_rules
       | (simp only [$ds,*] <;> split_ifs <;> qs_tie_leaf)
       | (simp [$ds,*] <;> split_ifs <;> qs_tie_leaf)
       | (simp only [$ds,*] <;> grind))
+
+/-- the same, for obligations that carry a hypothesis `h` (rewritten into the goal first) -/
+syntax "qs_tie_h" ident "[" Lean.Parser.Tactic.simpLemma,* "]" : tactic
+macro_rules
+  | `(tactic| qs_tie_h $h:ident [$ds,*]) => `(tactic| first
+      | (simp only [$ds,*, $h:ident] <;> done)
+      | (simp [$ds,*, $h:ident] <;> done)
+      | (simp only [$ds,*, $h:ident] <;> split_ifs <;> qs_tie_leaf)
+      | (simp [$ds,*, $h:ident] <;> split_ifs <;> qs_tie_leaf)
+      | (simp only [$ds,*, $h:ident] <;> grind))
